@@ -24,12 +24,12 @@ func TestProfMig(t *testing.T) {
 		t.Fatal("not ok")
 	}
 	cov, skips := newCounter(), newCounter()
-	migrateOne(r, c, deps, cov, skips) // warm up
+	migrateOne(r, c, deps, cov, skips, false) // warm up
 	fp, _ := os.Create("/tmp/c16mig.prof")
 	pprof.StartCPUProfile(fp)
 	t0 := time.Now()
 	for i := 0; i < 5; i++ {
-		migrateOne(r, c, deps, cov, skips)
+		migrateOne(r, c, deps, cov, skips, false)
 	}
 	pprof.StopCPUProfile()
 	fp.Close()
